@@ -33,8 +33,9 @@ WHAT IS MODELLED
 WHAT IS NOT MODELLED (the generator of the tie never produces it; another model extends this one)
 * application calls, inner transactions, boxes, state proofs, heartbeats, rekeying (AuthAddr stays zero, the authorizer check
   is therefore trivially passed), leases, logic/multi/PQ signatures and their fee surcharges, notes beyond the free size,
-  duplicates of transactions of EARLIER blocks (`roundCowBase.checkDup` → txtail), block size limit (`ErrNoSpace`),
+  duplicates of transactions of EARLIER blocks (`roundCowBase.checkDup` → txtail),
   `ApplyData` (sender/receiver/close rewards, closing amounts, created asset id) and its reward-tracking overflow errors,
+  msgpack sizes (the encoded size of every evaluated member is an input, `Txn.size`; the block-space ACCOUNTING is modelled),
   `StartEvaluator` (rewards withdrawal from the pool) and `endOfBlock` (payouts, expired / absent accounts, CalculateTotals);
   asset names, unit names, URLs and metadata hashes (always empty), app / box counters of accounts (always 0).
 * uint64 round arithmetic (`round + lookback`) is not wrapped: rounds are far below 2^64.
@@ -149,6 +150,10 @@ structure Txn where
   assetCloseTo : Addr := 0
   freezeAccount : Addr := 0
   frozen : Bool := false
+  /-- `txib.GetEncodedLength()`: the encoded size of the `SignedTxnInBlock` (transaction + ApplyData) this member had in the
+  real evaluation, supplied by the harness (msgpack and ApplyData are not modelled); 0 for members that were not reached.
+  Only the block-space accounting reads it. -/
+  size : Nat := 0
 deriving DecidableEq, Repr, Inhabited
 
 /-- `transactions.Txid`: determined by the transaction and, when it carries a group id, by the whole group. -/
@@ -157,7 +162,8 @@ structure TxId where
   group : List Txn
 deriving DecidableEq, Repr, Inhabited
 
-def txid (g : List Txn) (t : Txn) : TxId := ⟨t, if t.grp = 0 then [] else g⟩
+def txid (g : List Txn) (t : Txn) : TxId :=
+  ⟨{ t with size := 0 }, if t.grp = 0 then [] else g.map (fun u => { u with size := 0 })⟩
 
 /-- One `roundCowState.mods` (+ txnCount, feesCollected). -/
 structure Layer where
@@ -206,6 +212,9 @@ structure Params where
   feeSink : Addr := 7
   rewardsPool : Addr := 8
   spSender : Addr := 9             -- transactions.StateProofSender
+  maxBytes : Nat := 5242880        -- eval.maxTxnBytesPerBlock (EvaluatorOptions.MaxTxnBytesPerBlock, capped by the protocol's)
+  protoBytes : Nat := 5242880      -- proto.MaxTxnBytesPerBlock (denominator of the header Load)
+  loadTracking : Bool := true      -- proto.LoadTracking
 deriving Repr, Inhabited
 
 /-- Error classes (the harness maps Go errors to the same tokens). -/
@@ -221,6 +230,7 @@ inductive Err
   | noFreeze | frzNotFound
   | minBal | maxMinBal
   | grpInconsistent | grpEmpty | grpIncomplete | fee
+  | noSpace
 deriving DecidableEq, Repr, Inhabited
 
 /-! ## Association lists (Go maps with deterministic order) -/
@@ -701,16 +711,18 @@ def firstMalformed (P : Params) : Nat → List Txn → Option Nat
 /-- errors whose Go message names the failing transaction (`transaction <txid>: …`): they carry the member index -/
 abbrev GErr := Err × Option Nat
 
-/-- the member loop of `TransactionGroup`; `g0` is the group tag of the first member -/
-def groupLoop (P : Params) (x : Ctx) (g : List Txn) (g0 : Nat) : Nat → Layer → List Txn → Except GErr Layer
-  | _, l, [] => .ok l
-  | i, l, t :: ts =>
+/-- the member loop of `TransactionGroup`; `g0` is the group tag of the first member, `used` = `blockTxBytes + groupTxBytes` so far -/
+def groupLoop (P : Params) (x : Ctx) (g : List Txn) (g0 : Nat) : Nat → Nat → Layer → List Txn → Except GErr Layer
+  | _, _, l, [] => .ok l
+  | used, i, l, t :: ts =>
     match evalTxn P x l g t with
     | .error e => .error (e, some i)
     | .ok l1 =>
-      if t.grp ≠ g0 then .error (.grpInconsistent, none)
+      -- `groupTxBytes += txib.GetEncodedLength(); if eval.blockTxBytes+groupTxBytes > eval.maxTxnBytesPerBlock → ErrNoSpace`
+      if P.maxBytes < used + t.size then .error (.noSpace, none)
+      else if t.grp ≠ g0 then .error (.grpInconsistent, none)
       else if t.grp = 0 ∧ 1 < g.length then .error (.grpEmpty, none)
-      else groupLoop P x g g0 (i + 1) l1 ts
+      else groupLoop P x g g0 (used + t.size) (i + 1) l1 ts
 
 /-- `transactions.SummarizeFees` for unsigned transactions with short notes: usage 1e6 per member -/
 def feeUsage (g : List Txn) : Nat := g.foldl (fun u _ => Gen.Basics.AddSaturate 64 u 1000000) 0
@@ -722,13 +734,13 @@ def groupTag : List Txn → Nat
   | t :: _ => t.grp
 
 /-- Evaluate the group in a fresh child of `top`: the child at the end, or the error. -/
-def evalGroupChild (P : Params) (x : Ctx) (top : Layer) (g : List Txn) : Except GErr Layer :=
+def evalGroupChild (P : Params) (x : Ctx) (top : Layer) (used : Nat) (g : List Txn) : Except GErr Layer :=
   if P.maxGroupSize < g.length then .error (.grpSize, none)
   else
     match firstMalformed P 0 g with
     | some i => .error (.malformed, some i)
     | none =>
-      match groupLoop P { x with parents := top :: x.parents } g (groupTag g) 0 {} g with
+      match groupLoop P { x with parents := top :: x.parents } g (groupTag g) used 0 {} g with
       | .error e => .error e
       | .ok child =>
         if groupTag g ≠ 0 ∧ groupTag g ≠ 1 then .error (.grpIncomplete, none)
@@ -739,16 +751,20 @@ def evalGroupChild (P : Params) (x : Ctx) (top : Layer) (g : List Txn) : Except 
 structure EvalState where
   top : Layer := {}
   payset : List Txn := []
+  txBytes : Nat := 0               -- eval.blockTxBytes
 deriving Repr, Inhabited
+
+/-- `groupTxBytes` of a fully evaluated group -/
+def groupBytes (g : List Txn) : Nat := (g.map (·.size)).sum
 
 /-- `BlockEvaluator.TransactionGroup` -/
 def evalGroup (P : Params) (x : Ctx) (s : EvalState) (g : List Txn) : Except GErr EvalState :=
   match g with
   | [] => .ok s
   | _ :: _ =>
-    match evalGroupChild P x s.top g with
+    match evalGroupChild P x s.top s.txBytes g with
     | .error e => .error e
-    | .ok child => .ok { top := commitToParent child s.top, payset := s.payset ++ g }
+    | .ok child => .ok { top := commitToParent child s.top, payset := s.payset ++ g, txBytes := s.txBytes + groupBytes g }
 
 /-- a block under construction: groups are tried one after the other, a failing group is dropped -/
 def evalBlock (P : Params) (x : Ctx) (s : EvalState) : List (List Txn) → EvalState
